@@ -72,9 +72,16 @@ fn b2s(b: bool) -> &'static str {
 ///        another device's uplink, any frame MIC'd with Dir = 0) is NOT a frame for this device, whatever
 ///        its MIC (LoRaWAN 1.0.x §4.2.1: uplink messages are sent by end-devices to the network server):
 ///        view `g`.  (`ref_uplink` below is the NETWORK's decoder of what the device transmits.)
+///        builder Y — `own` is the DevAddr of the receiving device's session (`None`: no session / unknown, the
+///        address is then not looked at).  A downlink data frame whose FHDR DevAddr is not `own` is ADDRESSED TO
+///        SOMEONE ELSE: it is never authentic for this device, whatever key its MIC was computed with (also this
+///        session's own NwkSKey: two devices provisioned with the same keys, a network reusing a key) — its view is
+///        the unauthentic data frame `d <len> <confirmed> <fcnt16> - - - -` ("verifies under no counter: other
+///        session"), exactly like a frame MIC'd under another key.  (Not `g`: the length must stay visible, an
+///        oversized frame ends a Class A receive procedure whoever it is addressed to.)
 ///   `j 1 <devaddr> <dlsettings> <rxdelay> <cflist>`   an authentic JoinAccept under `root`,
 ///   `g`   anything else.
-pub fn ref_view(bytes: &[u8], nwk: &[u8; 16], app: &[u8; 16], root: &[u8; 16], mic_hint: Option<u32>) -> String {
+pub fn ref_view(bytes: &[u8], own: Option<u32>, nwk: &[u8; 16], app: &[u8; 16], root: &[u8; 16], mic_hint: Option<u32>) -> String {
     if bytes.is_empty() {
         return "g".into();
     }
@@ -94,8 +101,13 @@ pub fn ref_view(bytes: &[u8], nwk: &[u8; 16], app: &[u8; 16], root: &[u8; 16], m
             let dir = 1u8;
             let devaddr = &bytes[1..5];
             let f16 = u16::from_le_bytes([bytes[6], bytes[7]]);
+            // addressed to this device?  (LoRaWAN 1.0.x §4.3.1: DevAddr, 4 octets little-endian after the MHDR)
+            let mine = match own {
+                Some(a) => a.to_le_bytes()[..] == *devaddr,
+                None => true,
+            };
             let authentic = match mic_hint {
-                Some(n) if data_mic(nwk, &bytes[..mic_at], dir, devaddr, n)[..] == bytes[mic_at..] => Some(n),
+                Some(n) if mine && data_mic(nwk, &bytes[..mic_at], dir, devaddr, n)[..] == bytes[mic_at..] => Some(n),
                 _ => None,
             };
             return match authentic {
